@@ -21,7 +21,7 @@ import elementpath.aliases as ta
 from elementpath.namespaces import XML_ID, XML_LANG
 from elementpath.datatypes import AnyURI, Float, DayTimeDuration, YearMonthDuration, \
     StringProxy, AnyAtomicType, Duration, UntypedAtomic
-from elementpath.helpers import get_double, round_number
+from elementpath.helpers import get_double, round_number, split_white_spaces
 from elementpath.xpath_nodes import XPathNode, ElementNode, TextNode, CommentNode, \
     ProcessingInstructionNode, DocumentNode, EtreeElementNode
 from elementpath.xpath_context import XPathSchemaContext
@@ -149,7 +149,7 @@ def select__id(self: XPathFunction, context: ta.ContextType = None) \
     # argument is converted to a string; the string is a whitespace separated list of IDs
     value = self[0].evaluate(context)
     idrefs = {x for v in (value if isinstance(value, list) else [value])
-              for x in self.string_value(v).split()}
+              for x in split_white_spaces(self.string_value(v))}
     item = context.item
     if item is None:
         item = context.root
